@@ -31,7 +31,8 @@ def rnd_bytes(rng, data_ok):
     n = rng.choice([1, 2, 3, 5, 8, 20])
     if data_ok:
         return bytes(rng.choice([rng.randrange(1, 256), rng.choice(b"\"'<>& ")]) for _ in range(n))
-    return bytes(rng.choice([rng.randrange(32, 127), rng.choice(b"\"'<>& ")]) for _ in range(n))
+    # (a literal never holds "${": the JS layer reads it as a template placeholder - not attribute code, see UTF8_LIT)
+    return bytes(rng.choice([rng.randrange(32, 127), rng.choice(b"\"'<>& ")]) for _ in range(n)).replace(b"${", b"$ {")
 
 
 def rnd_num(rng, lit):
@@ -90,14 +91,66 @@ def rnd_attr(rng, p_class=0.3):
     return ["attr", hx(name), rnd_aval(rng, lit, name), True, lit]
 
 
-def rnd_entries(rng, n, lit=False):
+# ---- keys that a careless comparison cannot tell apart (the order of a spread object must depend on its contents only)
+TIE_BASES = ["data-ref", "aria-label", "title", "data-x", "k", "ab", "x-y", "onclick", "v-on:click", "data-user-id"]
+
+
+def tie_family(rng, n):
+    """n distinct names that tie under some sloppy comparison: letter case ignored, separators ignored or taken for
+    each other, only a prefix / only the length looked at, digits read as numbers"""
+    base = rng.choice(TIE_BASES)
+    kind = rng.choice(["case", "case", "case", "sep", "prefix", "length", "digits", "mixed"])
+    out, tries = [], 0
+    while len(out) < n and tries < 200:
+        tries += 1
+        k = kind if kind != "mixed" else rng.choice(["case", "sep", "prefix", "digits"])
+        if k == "case":
+            v = "".join(c.upper() if rng.random() < 0.5 else c for c in base)
+        elif k == "sep":
+            v = "".join(rng.choice("-_.:") if c in "-_.:" else c for c in (base if any(c in "-_.:" for c in base) else "a-b-c"))
+        elif k == "prefix":
+            v = base + rng.choice(["", "1", "2", "10", "-a", "-A", "_", "a", "A", "Z", "z"])
+        elif k == "length":
+            v = "".join(rng.choice("abAB-_") if c.isalpha() and rng.random() < 0.4 else c for c in base)
+        else:
+            v = base + rng.choice(["1", "01", "001", "10", "9", "2", "02"])
+        if v not in out and v.lower() != "class" and v[0] not in "-_.:":
+            out.append(v)
+    return out
+
+
+def rnd_key_names(rng, n, pool):
+    """n distinct key names for a spread object / a mixin call: plain names, with a family of tying names in 45 %"""
     names = []
-    pool = NAMES + ["class", "class"]
+    if n >= 2 and rng.random() < 0.45:
+        names = tie_family(rng, rng.randint(2, min(n, 6)))
     while len(names) < n:
         k = rng.choice(pool)
         if k not in names:
             names.append(k)
+    rng.shuffle(names)
+    return names
+
+
+def rnd_entries(rng, n, lit=False):
+    names = rnd_key_names(rng, n, NAMES + ["class", "class"])
     return [[hx(k), rnd_aval(rng, lit, k)] for k in names]
+
+
+def shared_then_second(rng):
+    """two values for one name (class): an array that lives in a variable (page data), so that every use of the tag /
+    every call sees the very same array, followed by a second value that has to be merged with it"""
+    words = rng.sample([w for w in PLAIN_WORDS if w.strip() and " " not in w and "{" not in w and "}" not in w], 5)
+    first = ["arr", [["s", hx(w)] for w in words[:rng.choice([0, 1, 2, 2, 3])]]]
+    r = rng.random()
+    if r < 0.6:
+        second = ["s", hx(words[3])]
+    elif r < 0.85:
+        second = ["arr", [["s", hx(words[3])]] + ([["s", hx(words[4])]] if rng.random() < 0.5 else [])]
+    else:
+        lit2 = rng.random() < 0.5
+        return first, rnd_aval(rng, lit2, "class"), lit2
+    return first, second, rng.random() < 0.5
 
 
 def gen_case(rng, tier):
@@ -114,6 +167,13 @@ def gen_case(rng, tier):
             if not a[3]:
                 a[3] = True
             srcs.insert(rng.randint(0, len(srcs)), a)
+    shared = False
+    if rng.random() < 0.12:
+        first, second, lit2 = shared_then_second(rng)
+        i = rng.randint(0, len(srcs))
+        srcs.insert(i, ["attr", hx("class"), first, True, False])
+        srcs.insert(rng.randint(i + 1, len(srcs)), ["attr", hx("class"), second, True, lit2])
+        shared = True
     if r < 0.3:
         srcs.append(["spread", False, rnd_entries(rng, rng.choice([0, 1, 2, 4, 5, 6, 8]))])
     elif r < 0.4:
@@ -123,8 +183,12 @@ def gen_case(rng, tier):
         srcs.append(["spread", True, es])
     elif r < 0.65:
         atts = []
-        for _ in range(rng.choice([0, 1, 2, 4, 5, 6, 8])):
+        na = rng.choice([0, 1, 2, 4, 5, 6, 8])
+        fam = tie_family(rng, rng.randint(2, min(na, 6))) if na >= 2 and rng.random() < 0.4 else []
+        for i in range(na):
             name = rnd_name(rng, 0.35)
+            if fam and rng.random() < 0.7:
+                name = fam.pop()
             lit = rng.random() < 0.6
             atts.append([hx(name), rnd_aval(rng, lit, name), lit])
         # non-class names unique (pug rejects duplicate attributes), now and then violated on purpose
@@ -136,8 +200,29 @@ def gen_case(rng, tier):
                 seen.add(a[0])
                 out.append(a)
             atts = out
+        if rng.random() < 0.4:
+            first, second, lit2 = shared_then_second(rng)
+            i = rng.randint(0, len(atts))
+            atts.insert(i, [hx("class"), first, False])
+            atts.insert(rng.randint(i + 1, len(atts)), [hx("class"), second, lit2])
+            shared = True
         srcs.append(["mixin", atts])
-    return {"srcs": srcs}
+    case = {"srcs": srcs}
+    # the tag (or the mixin call) is used several times in one render - written out again, or inside an each loop -
+    # and the page is rendered several times by the one engine of the process: every use sees the same variables /
+    # page data / declared object, and every use must give the same attributes
+    if not any(unescaped_nonliteral(s) for s in srcs):      # (F-C05-d output cannot be cut into uses reliably)
+        r = rng.random()
+        if r < (0.85 if shared else 0.55):
+            case["uses"] = rng.choice([2, 2, 3, 3, 4, 6])
+            case["style"] = rng.choice(["again", "each", "each_data"])
+    if rng.random() < 0.5:
+        case["renders"] = rng.choice([2, 3, 5])
+    return case
+
+
+def unescaped_nonliteral(s):
+    return s[0] == "attr" and not s[3] and not (s[4] and s[2][0] == "s")
 
 
 # ---- abstract case -> pug AST + data
@@ -206,8 +291,37 @@ def build(case, rng=None):
             call = ('call', 'm', [], [(unhx(a[0]), expr_of(a[1], a[2], data, cnt), True) for a in s[1]], [])
             ablocks.append('attributes')
     tag = ('tag', 'div', False, attrs, ablocks, [])
-    nodes = pre + ([('mixin', 'm', [], [tag]), call] if call else [tag])
-    return tmpl.tmpl_case(nodes, data)
+    use = call if call else tag
+    uses, style = case.get("uses", 1), case.get("style", "again")
+    if uses == 1:
+        body = [use]
+    elif style == "again":
+        body = [use] * uses
+    elif style == "each":
+        body = [('each', 'u_', None, ('arr', [('num', i) for i in range(uses)]), [use])]
+    else:
+        data['us_'] = list(range(uses))
+        body = [('each', 'u_', 'i_', ('id', 'us_'), [use])]
+    nodes = pre + ([('mixin', 'm', [], [tag])] if call else []) + body
+    t = tmpl.tmpl_case(nodes, data)
+    t["uses"] = uses
+    t["renders"] = case.get("renders", 1)
+    return t
+
+
+def split_uses(out, uses):
+    """the output of one render cut into the `uses` pieces <div ...></div>; uncut if it is not of that form"""
+    if uses == 1:
+        return [out]
+    parts = out.split(b"></div>")
+    if len(parts) == uses + 1 and parts[-1] == b"":
+        return [p + b"></div>" for p in parts[:-1]]
+    return [out]
+
+
+def renders_of(r):
+    """all renders of one process"""
+    return r.get("renders") or [{"class": r["class"], "out": r["out"], "tok_ok": r["tok_ok"], "toks": [r["tok_attrs"]]}]
 
 
 # ---- Gallina
@@ -258,18 +372,32 @@ class C05(Prop):
     rule = ("one tag per case with 0-15 attribute sources: name=value attributes (literal or data; strings incl. all five "
             "specials, template delimiters, control and non-UTF-8 bytes; numbers; booleans; null; undefined; arrays for class; "
             "repeated names; shorthand-style unescaped literals), optionally followed by &attributes of a data map (0-8 keys), "
-            "of an object literal, or of a mixin call's attributes; every case is rendered by the real engine in 3 fresh "
-            "processes; non-trivial = at least two sources or a spread; distinct by SHA-1 of the case")
+            "of an object literal, or of a mixin call's attributes. Keys of spread objects / mixin calls: in 40-45 % of the "
+            "objects with two or more keys a family of 2-6 names that tie under a sloppy comparison (same but for letter case, "
+            "separators - _ . : taken for each other, common prefix, same length, digit suffixes 1/01/10). Shared values: "
+            "in 40 % of the mixin calls and 12 % of the plain tags class=<array held in page data> is followed by a second "
+            "class value. About half of the cases (85 % of those with a shared array) USE the tag / the mixin call 2-6 "
+            "times in one render (written out again, inside `each` over a literal, inside `each` over page data), so every "
+            "use sees the same variables, page data and declared object; half of the cases are rendered 2, 3 or 5 times by "
+            "the engine of the process; every case runs in 3 fresh processes. Every single use of every render of every "
+            "process is judged (oracle on Go's own text and on the x/net/html token list of that use). non-trivial = at "
+            "least two sources or a spread; distinct by SHA-1 of the case")
     trusted = ["pug front end not available offline: the generated AST follows pug-ast-spec (attrs with val = JS source, "
-               "mustEscape; attributeBlocks; Mixin call attrs)",
+               "mustEscape; attributeBlocks; Mixin call attrs; Each)",
                "golang.org/x/net/html tokenizer as the second, independent reader of Go's output",
                "Number.String (big.Float %.10g) is modelled as decimal printing for |n| < 10^10 only; fmt %q and the template "
-               "lexer's unquoting are modelled as identity on printable ASCII without quote and backslash"]
+               "lexer's unquoting are modelled as identity on printable ASCII without quote and backslash",
+               "the output of a render with k uses is cut into its k pieces at every `></div>` by gen/c05.py (split_uses); "
+               "an output that is not k such pieces is handed to the judge uncut and rejected by its oracle"]
     assumptions = ["the records handed to __attrs are exactly what the model's lowering (lower_attr / and_attrs / map_params) "
                    "produces for the tag's sources: checked per case by the correspondence run, not proved",
                    "a data map reaches __and_attrs as a Map without explicit order, whose Keys() are sorted bytewise (repair "
                    "F-C05-c); the entries are given to the model in an arbitrary order (C05_spread_order: the order does not "
-                   "matter to the model; every case is still rendered in 3 fresh processes)",
+                   "matter to the model; every case is rendered in 3 fresh processes and up to 5 times per process, with key "
+                   "families that differ only in letter case / separators)",
+                   "the model describes ONE use of the tag; that a use is independent of earlier uses, calls and renders "
+                   "(no value handed to a tag or a mixin call is changed by it) is not a theorem about the Go runtime but is "
+                   "checked by the run: every use of every render must equal the single-use prediction",
                    "C05_spec holds on dom_C05: proper attribute names, values without NUL, integers below 10^10, no true among "
                    "class values, arrays only for class, unescaped attributes only with plain string literals (else F-C05-d), "
                    "distinct keys per spread object, non-class names of a mixin call distinct, no class entry repeating an "
@@ -294,11 +422,27 @@ class C05(Prop):
 
     def emit(self, case, obs):
         runs = obs["runs"]
-        ok = all(r["load"] == "ok" and r["class"] == "ok" for r in runs)
-        panic = all(r["load"] == "ok" and r["class"] == "exec_panic" for r in runs)
-        outs = [unhx(r["out"]) for r in runs if r["load"] == "ok" and r["class"] == "ok"]
-        tok_ok = all(r["tok_ok"] for r in runs)
-        toks = [cq_list([cq_pair(cq_bytes(unhx(a["name"])), cq_bytes(unhx(a["val"]))) for a in r["tok_attrs"]]) for r in runs]
+        uses = case.get("uses", 1)
+        loaded = all(r["load"] == "ok" for r in runs)
+        rs = [x for r in runs if r["load"] == "ok" for x in renders_of(r)]       # every render of every process
+        ok = loaded and all(x["class"] == "ok" for x in rs)
+        panic = loaded and all(x["class"] == "exec_panic" for x in rs)
+        # every use of the tag in every render is one output for the judge, identical ones once
+        outs, seen = [], set()
+        for x in rs:
+            if x["class"] == "ok":
+                for o in split_uses(unhx(x["out"]), uses):
+                    if o not in seen:
+                        seen.add(o)
+                        outs.append(o)
+        tok_ok = all(x["tok_ok"] for x in rs)
+        toks, seen = [], set()
+        for x in rs:
+            for t in x["toks"]:
+                key = json.dumps(t, sort_keys=True)
+                if key not in seen:
+                    seen.add(key)
+                    toks.append(cq_list([cq_pair(cq_bytes(unhx(a["name"])), cq_bytes(unhx(a["val"]))) for a in t]))
         return (b"{| srcs := " + cq_list([src_coq(s) for s in case["srcs"]]) +
                 b"; go_ok := " + cq_bool(ok) + b"; go_panic := " + cq_bool(panic) +
                 b"; go_outs := " + cq_list([cq_bytes(o) for o in outs]) +
@@ -315,6 +459,19 @@ class C05(Prop):
                 "go_out": unhx(r["out"]).decode("utf-8", "replace")}
 
     def shrink(self, case):
+        extra = {k: v for k, v in case.items() if k != "srcs"}
+        if case.get("renders", 1) > 1:
+            yield {**{k: v for k, v in extra.items() if k != "renders"}, "srcs": case["srcs"]}
+        if case.get("uses", 1) > 2:
+            yield {**extra, "uses": 2, "srcs": case["srcs"]}
+        if case.get("uses", 1) > 1:
+            yield {"srcs": case["srcs"], **({"renders": case["renders"]} if "renders" in case else {})}
+            if case.get("style") != "again":
+                yield {**extra, "style": "again", "srcs": case["srcs"]}
+        for c in self.shrink_srcs(case):
+            yield {**extra, **c}
+
+    def shrink_srcs(self, case):
         ss = case["srcs"]
         for i in range(len(ss)):
             yield {"srcs": ss[:i] + ss[i + 1:]}
@@ -339,7 +496,9 @@ class C05(Prop):
     def distribution(self, cases, obss):
         d = {"sources": {}, "with_data_map_spread": 0, "with_object_literal_spread": 0, "with_mixin_attributes": 0,
              "with_repeated_name": 0, "with_class": 0, "with_array": 0, "with_unescaped": 0, "go_panic": 0,
-             "go_load_error": 0, "order_differs_between_processes": 0, "value_kinds": {}}
+             "go_load_error": 0, "order_differs_between_processes": 0, "value_kinds": {},
+             "uses_per_render": {}, "use_style": {}, "renders_per_process": {}, "with_keys_equal_but_for_case": 0,
+             "with_shared_array_next_to_second_class_used_twice": 0, "with_shared_object_used_twice": 0}
         for c, o in zip(cases, obss):
             ss = c["srcs"]
             k = str(len(ss))
@@ -347,6 +506,24 @@ class C05(Prop):
             names = [s[1] for s in ss if s[0] == "attr"]
             d["with_repeated_name"] += len(set(names)) < len(names)
             d["with_class"] += hx("class") in names
+            u, rn = c.get("uses", 1), c.get("renders", 1)
+            d["uses_per_render"][str(u)] = d["uses_per_render"].get(str(u), 0) + 1
+            d["renders_per_process"][str(rn)] = d["renders_per_process"].get(str(rn), 0) + 1
+            if u > 1:
+                d["use_style"][c["style"]] = d["use_style"].get(c["style"], 0) + 1
+            for s in ss:
+                keys = [unhx(e[0]).decode() for e in (s[2] if s[0] == "spread" else s[1])] if s[0] != "attr" else []
+                d["with_keys_equal_but_for_case"] += len({k.lower() for k in keys}) < len(set(keys))
+                if u > 1 and s[0] != "attr":
+                    d["with_shared_object_used_twice"] += 1
+                if u > 1 and s[0] == "mixin":
+                    cl = [a for a in s[1] if a[0] == hx("class")]
+                    d["with_shared_array_next_to_second_class_used_twice"] += any(
+                        a[1][0] == "arr" and not a[2] for a in cl[:-1])
+            if u > 1:
+                cl = [s for s in ss if s[0] == "attr" and s[1] == hx("class")]
+                d["with_shared_array_next_to_second_class_used_twice"] += any(
+                    s[2][0] == "arr" and not s[4] for s in cl[:-1])
             for s in ss:
                 if s[0] == "spread":
                     d["with_object_literal_spread" if s[1] else "with_data_map_spread"] += 1
@@ -359,7 +536,8 @@ class C05(Prop):
             r = o["runs"]
             d["go_panic"] += r[0]["load"] == "ok" and r[0]["class"] == "exec_panic"
             d["go_load_error"] += r[0]["load"] != "ok"
-            d["order_differs_between_processes"] += len({x["out"] for x in r}) > 1
+            d["order_differs_between_processes"] += len({y["out"] for x in r for y in renders_of(x)} if all(
+                x["load"] == "ok" for x in r) else {x["out"] for x in r}) > 1
         return d
 
 
